@@ -177,6 +177,9 @@ def check_minvar(x, m, nfft, sampling, tag, with_class=True):
 
 
 def replay(rep):
+    if rep.get('replay', {}).get('form') == 'routes':
+        from props import _estimators as E_
+        return E_.replay_routes(rep['replay'])
     if rep['replay'].get('protocol') == 'values_only':
         from props import _purity
         return _purity.replay_protocol(rep['replay'])
@@ -197,6 +200,9 @@ def run(ctx):
     from spectrum import minvar, arburg
     rng = ctx.rng
     ctx.check_theorems('Properties/C16.v')
+    # the estimate an object holds does not depend on the history that gave it its data and settings (every route of _estimators.via)
+    from props import _estimators as E_
+    E_.class_route_stream(ctx, ['pminvar'], 'routes')
     loopir_tie(ctx, ['minvar_psi', 'arburg'])      # IR programs regenerated from the source vs the model: exact, zero tolerance
 
     # ------------------------------------------------------------------ exact correspondence at Gaussian rationals
